@@ -4,9 +4,13 @@
 package main
 
 import (
+	"encoding/json"
 	"fmt"
+	"math"
 	"math/rand"
+	"os"
 	"path/filepath"
+	"sort"
 	"strconv"
 	"strings"
 	"sync"
@@ -38,10 +42,10 @@ func luaCall(args []string) string {
 	return "return tile38.pcall(" + strings.Join(q, ",") + ")"
 }
 
-// one random data-modifying command
-func genCmd(rng *rand.Rand, allowShortTTL bool) []string {
+// one random data-modifying command, not wrapped in a script
+func genPlain(rng *rand.Rand, allowShortTTL bool) []string {
 	k, id := pick(rng, keys), pick(rng, ids)
-	switch x := rng.Intn(100); {
+	switch x := rng.Intn(90); {
 	case x < 30:
 		a := []string{"SET", k, id}
 		for i := rng.Intn(3); i > 0; i-- {
@@ -95,21 +99,158 @@ func genCmd(rng *rand.Rand, allowShortTTL bool) []string {
 			a = append(a, "EX", "7000")
 		}
 		return append(a, "NEARBY", k, "FENCE", "DETECT", "enter,exit", "POINT", "33", "-112", "5000")
-	case x < 90:
-		return []string{[]string{"DELHOOK", "DELCHAN", "PDELHOOK", "PDELCHAN"}[rng.Intn(4)], []string{"h0", "h1", "h*"}[rng.Intn(3)]}
 	default:
-		inner := genCmd(rng, false)
-		for inner[0] == "SETHOOK" || inner[0] == "SETCHAN" || strings.Contains(inner[0], "DEL") && strings.Contains(inner[0], "HOOK") || strings.HasSuffix(inner[0], "CHAN") || inner[0] == "EVAL" || inner[0] == "EVALNA" {
-			inner = genCmd(rng, false)
-		}
-		return []string{[]string{"EVAL", "EVALNA"}[rng.Intn(2)], luaCall(inner), "0"}
+		return []string{[]string{"DELHOOK", "DELCHAN", "PDELHOOK", "PDELCHAN"}[rng.Intn(4)], []string{"h0", "h1", "h*"}[rng.Intn(3)]}
 	}
 }
 
+func isHookCmd(a []string) bool {
+	return strings.HasSuffix(a[0], "HOOK") || strings.HasSuffix(a[0], "CHAN")
+}
+
+func hasShortTTL(a []string) bool {
+	for i := 0; i+1 < len(a); i++ {
+		if a[i] == "EX" && a[i+1] == "0.3" {
+			return true
+		}
+	}
+	return false
+}
+
+// wrap: one time in ten a (non-hook) command goes through EVAL / EVALNA
+func wrap(rng *rand.Rand, inner []string) []string {
+	if rng.Intn(10) != 0 || isHookCmd(inner) || hasShortTTL(inner) {
+		return inner
+	}
+	return []string{[]string{"EVAL", "EVALNA"}[rng.Intn(2)], luaCall(inner), "0"}
+}
+
+var objWords = map[string]bool{"POINT": true, "BOUNDS": true, "HASH": true, "OBJECT": true, "STRING": true}
+
+// toggle re-issues an earlier command of the history with ONE option changed: the point is that
+// the second command has a small or partial effect (only the deadline, only one field, nothing at
+// all) and must replay all the same. SET: EX added / removed / changed, NX or XX added or removed,
+// one FIELD dropped or its value changed; SETHOOK/SETCHAN: EX added / removed / changed, META
+// value changed; EXPIRE: same or other value; everything else: sent again verbatim.
+func toggle(rng *rand.Rand, src []string, allowShortTTL bool) []string {
+	a := append([]string{}, src...)
+	exVals := []string{"5000", "7000", "9000"}
+	if allowShortTTL && rng.Intn(6) == 0 {
+		exVals = []string{"0.3"}
+	}
+	toggleEX := func(from, to int) []string { // option region a[from:to]
+		for i := from; i+1 < to; i++ {
+			if a[i] == "EX" {
+				if rng.Intn(2) == 0 { // removed
+					return append(append([]string{}, a[:i]...), a[i+2:]...)
+				}
+				nv := pick(rng, exVals)
+				for nv == a[i+1] {
+					nv = pick(rng, []string{"5000", "7000", "9000"})
+				}
+				a[i+1] = nv
+				return a
+			}
+		}
+		out := append([]string{}, a[:to]...)
+		out = append(out, "EX", pick(rng, exVals))
+		return append(out, a[to:]...)
+	}
+	switch a[0] {
+	case "SET":
+		if len(a) < 4 {
+			return a
+		}
+		oi := len(a)
+		var fieldAt []int
+		flagAt := -1
+		for i := 3; i < len(a); {
+			switch {
+			case a[i] == "FIELD" && i+2 < len(a):
+				fieldAt = append(fieldAt, i)
+				i += 3
+			case a[i] == "EX" && i+1 < len(a):
+				i += 2
+			case a[i] == "NX" || a[i] == "XX":
+				flagAt = i
+				i++
+			default:
+				oi = i
+				i = len(a) + 1
+			}
+		}
+		if oi >= len(a) || !objWords[a[oi]] {
+			return a
+		}
+		switch m := rng.Intn(10); {
+		case m < 5:
+			return toggleEX(3, oi)
+		case m < 7:
+			if flagAt >= 0 {
+				if rng.Intn(2) == 0 {
+					return append(append([]string{}, a[:flagAt]...), a[flagAt+1:]...)
+				}
+				a[flagAt] = map[string]string{"NX": "XX", "XX": "NX"}[a[flagAt]]
+				return a
+			}
+			out := append([]string{}, a[:oi]...)
+			out = append(out, []string{"NX", "XX"}[rng.Intn(2)])
+			return append(out, a[oi:]...)
+		default:
+			if len(fieldAt) == 0 {
+				out := append([]string{}, a[:3]...)
+				out = append(out, "FIELD", pick(rng, fieldsN), "4")
+				return append(out, a[3:]...)
+			}
+			f := fieldAt[rng.Intn(len(fieldAt))]
+			if rng.Intn(2) == 0 {
+				return append(append([]string{}, a[:f]...), a[f+3:]...)
+			}
+			a[f+2] = pick(rng, []string{"0", "11", "-7", "other"})
+			return a
+		}
+	case "SETHOOK", "SETCHAN":
+		ni := -1
+		for i, x := range a {
+			if x == "NEARBY" {
+				ni = i
+				break
+			}
+		}
+		if ni < 0 {
+			return a
+		}
+		if rng.Intn(3) == 0 {
+			for i := 2; i+2 < ni; i++ {
+				if a[i] == "META" {
+					a[i+2] = "w" + strconv.Itoa(rng.Intn(9))
+					return a
+				}
+			}
+		}
+		return toggleEX(2, ni)
+	case "EXPIRE":
+		if rng.Intn(2) == 0 && len(a) == 4 {
+			a[3] = pick(rng, []string{"6000", "8000"})
+		}
+		return a
+	case "FSET":
+		if rng.Intn(2) == 0 && len(a) == 5 {
+			a[4] = pick(rng, []string{"0", "2", "abc"})
+		}
+		return a
+	}
+	return a
+}
+
 func run(r *hx.Result, cfg hx.Config) {
-	r.Rule = "history = 40-120 random data-modifying commands (SET with FIELD/EX/NX/XX and every object kind, FSET, DEL, PDEL, DROP, RENAME(NX), FLUSHDB, EXPIRE, PERSIST, JSET, JDEL, SETHOOK/SETCHAN with META/EX, DEL/PDELHOOK/CHAN, each also through EVAL/EVALNA) with sub-second TTLs left to expire; quiescent mode: dump, clean stop or kill -9, restart, dump must be identical (has-deadline included); load mode: several connections write increasing sequence numbers, the process is killed at a random instant, after restart every key holds at least its last acknowledged number and at most its last sent one, and a further restart changes nothing. non-trivial = distinct history with at least 10 effective writes of at least 5 command kinds."
+	r.Rule = "first two directed histories of 85 commands with small / partial / empty effects (identical SET with EX added, changed, dropped; one FIELD changed; NX/XX; unchanged FSET; EXPIRE to the same value; PERSIST twice; repeated JSET/JDEL; RENAME onto itself; identical SETCHAN/SETHOOK with another EX; through EVAL and TIMEOUT), state incl. TTLs rounded to 100 s taken after every command: restart (kill / stop) reproduces it, and every command that changed it has its record in appendonly.aof; then history = 40-120 random data-modifying commands (SET with FIELD/EX/NX/XX and every object kind, FSET, DEL, PDEL, DROP, RENAME(NX), FLUSHDB, EXPIRE, PERSIST, JSET, JDEL, SETHOOK/SETCHAN with META/EX, DEL/PDELHOOK/CHAN, each also through EVAL/EVALNA) where 22% of the steps re-send an earlier command of the history with one option toggled (EX added/removed/changed, NX/XX, one FIELD dropped or changed, META changed), with sub-second TTLs left to expire; quiescent mode: dump, clean stop or kill -9, restart, dump must be identical (has-deadline included); load mode: several connections write increasing sequence numbers, the process is killed at a random instant, after restart every key holds at least its last acknowledged number and at most its last sent one, and a further restart changes nothing. non-trivial = distinct history with at least 10 effective writes of at least 5 command kinds."
 	r.Assumptions = []string{"kill -9 leaves the bytes already written to the file (page cache survives a process kill)", "srv.Dump is the visible state: KEYS, SCAN with fields, TTL class, HOOKS, CHANS"}
 	rng := rand.New(rand.NewSource(cfg.Seed))
+	// directed regression histories first: commands whose effect is small or partial
+	for _, how := range []string{"kill", "stop"} {
+		runDirected(r, cfg, how)
+	}
 	n := 14
 	if cfg.Tier == "thorough" || cfg.Search {
 		n = 200
@@ -136,9 +277,24 @@ func run(r *hx.Result, cfg hx.Config) {
 				kinds := map[string]bool{}
 				effective := 0
 				var hist []string
+				var plain [][]string // the history without script wrapping, for re-sends
+				resends := 0
 				ncmd := 40 + lr.Intn(80)
 				for k := 0; k < ncmd; k++ {
-					a := genCmd(lr, true)
+					var inner []string
+					if len(plain) > 0 && lr.Intn(100) < 22 {
+						// re-send a (mostly recent) earlier command with one option toggled
+						back := 1 + lr.Intn(8)
+						if lr.Intn(4) == 0 || back > len(plain) {
+							back = 1 + lr.Intn(len(plain))
+						}
+						inner = toggle(lr, plain[len(plain)-back], true)
+						resends++
+					} else {
+						inner = genPlain(lr, true)
+					}
+					plain = append(plain, inner)
+					a := wrap(lr, inner)
 					v, err := c.Do(a...)
 					if err != nil {
 						mu.Lock()
@@ -167,6 +323,9 @@ func run(r *hx.Result, cfg hx.Config) {
 				defer mu.Unlock()
 				r.Count(strings.Join(hist, ";"), effective >= 10 && len(kinds) >= 5)
 				r.Dist("quiescent:" + how)
+				for i := 0; i < resends; i++ {
+					r.Dist("resend-toggled")
+				}
 				r.TracesImpl++
 				if err != nil {
 					r.Fail(hx.Failure{Kind: "oracle", Signature: "restart-failed", What: "server did not restart after " + how + ": " + err.Error(), Case: hist})
@@ -299,4 +458,324 @@ func firstDiff(a, b string) string {
 		}
 	}
 	return "(equal)"
+}
+
+// ---------- directed regression histories + AOF-level oracle ----------
+
+// fineDump = srv.Dump plus what srv.Dump abstracts away but a restart must still reproduce: the
+// remaining time of every object deadline and every hook/channel deadline, rounded to 100 s (the
+// directed histories only use deadlines of thousands of seconds that are 1000 s apart, so the
+// rounding hides the seconds that pass and nothing else).
+func fineDump(c *srv.Conn) string {
+	var sb strings.Builder
+	sb.WriteString(srv.Dump(c))
+	round := func(t float64) string { return strconv.Itoa(int(math.Round(t/100)) * 100) }
+	kv := c.MustDo("KEYS", "*")
+	var ks []string
+	for _, k := range kv.Array {
+		ks = append(ks, k.Str)
+	}
+	sort.Strings(ks)
+	for _, k := range ks {
+		v := c.MustDo("SCAN", k, "LIMIT", "100000000", "IDS")
+		if len(v.Array) != 2 {
+			continue
+		}
+		for _, id := range v.Array[1].Array {
+			t := c.MustDo("TTL", k, id.Str)
+			if t.Kind == ':' && t.Int >= 0 {
+				sb.WriteString("TTL " + k + " " + id.Str + " ~" + round(float64(t.Int)) + "\n")
+			}
+		}
+	}
+	c.MustDo("OUTPUT", "json")
+	for _, what := range []string{"HOOKS", "CHANS"} {
+		v := c.MustDo(what, "*")
+		var reply map[string]json.RawMessage
+		var items []struct {
+			Name string  `json:"name"`
+			TTL  float64 `json:"ttl"`
+		}
+		if json.Unmarshal([]byte(v.Str), &reply) == nil {
+			json.Unmarshal(reply[strings.ToLower(what)], &items)
+		}
+		sort.Slice(items, func(i, j int) bool { return items[i].Name < items[j].Name })
+		for _, it := range items {
+			if it.TTL >= 0 {
+				sb.WriteString(what + "-TTL " + it.Name + " ~" + round(it.TTL) + "\n")
+			}
+		}
+	}
+	c.MustDo("OUTPUT", "resp")
+	return sb.String()
+}
+
+// parseAOF reads a log of RESP arrays of bulk strings; ok=false when the file does not parse to its end
+func parseAOF(path string) (recs [][]string, ok bool) {
+	b, err := os.ReadFile(path)
+	if err != nil {
+		return nil, false
+	}
+	i := 0
+	line := func() (string, bool) {
+		j := i
+		for j+1 < len(b) && !(b[j] == '\r' && b[j+1] == '\n') {
+			j++
+		}
+		if j+1 >= len(b) {
+			return "", false
+		}
+		l := string(b[i:j])
+		i = j + 2
+		return l, true
+	}
+	for i < len(b) {
+		l, good := line()
+		if !good || len(l) < 2 || l[0] != '*' {
+			return recs, false
+		}
+		n, err := strconv.Atoi(l[1:])
+		if err != nil || n < 0 {
+			return recs, false
+		}
+		rec := make([]string, 0, n)
+		for k := 0; k < n; k++ {
+			l, good := line()
+			if !good || len(l) < 2 || l[0] != '$' {
+				return recs, false
+			}
+			m, err := strconv.Atoi(l[1:])
+			if err != nil || m < 0 || i+m+2 > len(b) {
+				return recs, false
+			}
+			rec = append(rec, string(b[i:i+m]))
+			i += m + 2
+		}
+		recs = append(recs, rec)
+	}
+	return recs, true
+}
+
+func sameRecord(rec, args []string) bool {
+	if len(rec) != len(args) || len(rec) == 0 || !strings.EqualFold(rec[0], args[0]) {
+		return false
+	}
+	for i := 1; i < len(rec); i++ {
+		if rec[i] != args[i] {
+			return false
+		}
+	}
+	return true
+}
+
+type dcmd struct {
+	wire []string // what is sent
+	log  []string // the record the log must hold if the command changes anything (= wire unless wrapped)
+}
+
+func plainCmd(a ...string) dcmd { return dcmd{a, a} }
+func evalCmd(a ...string) dcmd  { return dcmd{[]string{"EVAL", luaCall(a), "0"}, a} }
+func timeoutCmd(a ...string) dcmd {
+	return dcmd{append([]string{"TIMEOUT", "5"}, a...), a}
+}
+
+// with(a, "EX", "5000") inserts options right after the id / name of a SET / SETHOOK / SETCHAN
+func with(base []string, at int, opts ...string) []string {
+	out := append([]string{}, base[:at]...)
+	out = append(out, opts...)
+	return append(out, base[at:]...)
+}
+
+// directedHistory: every command here either repeats an earlier one with a single option changed, or
+// has a partial / empty effect. All deadlines are thousands of seconds: nothing expires meanwhile, so
+// the state only changes through the commands.
+func directedHistory() []dcmd {
+	A := []string{"SET", "fleet", "a", "FIELD", "speed", "5", "FIELD", "meta", `{"j":1}`, "POINT", "33.5", "-112.1"}
+	B := []string{"SET", "fleet", "b", "FIELD", "speed", "1", "POINT", "1", "2"}
+	S := []string{"SET", "fleet", "s", "STRING", "hello"}
+	G := []string{"SET", "docs", "g", "OBJECT", `{"type":"Feature","geometry":{"type":"Point","coordinates":[5,6]},"properties":{"n":1}}`}
+	fence := []string{"NEARBY", "fleet", "FENCE", "DETECT", "enter,exit", "POINT", "33", "-112", "5000"}
+	CH := append([]string{"SETCHAN", "ch1"}, fence...)
+	CP := append([]string{"SETCHAN", "ch2"}, fence...)
+	HK := append([]string{"SETHOOK", "hk1", "http://127.0.0.1:1/hk1"}, fence...)
+	h := []dcmd{
+		// object + fields, then the same SET with EX added, changed, through a script, dropped
+		plainCmd(A...),
+		plainCmd(with(A, 3, "EX", "5000")...),
+		plainCmd(with(A, 3, "EX", "7000")...),
+		evalCmd(with(A, 3, "EX", "3000")...),
+		plainCmd(A...),
+		timeoutCmd(with(A, 3, "EX", "9000")...),
+		// object with EX, then the same SET without it, then identical again
+		plainCmd(with(B, 3, "EX", "5000")...),
+		plainCmd(B...),
+		plainCmd(B...),
+		plainCmd(with(B, 3, "EX", "5000")...),
+		evalCmd(B...),
+		// one field changed / dropped / added, nothing else
+		plainCmd("SET", "fleet", "b", "FIELD", "speed", "2", "POINT", "1", "2"),
+		plainCmd("SET", "fleet", "b", "POINT", "1", "2"),
+		plainCmd("SET", "fleet", "b", "FIELD", "speed", "2", "FIELD", "extra", "3", "POINT", "1", "2"),
+		plainCmd("SET", "fleet", "b", "FIELD", "speed", "0", "FIELD", "extra", "3", "POINT", "1", "2"),
+		// NX / XX that do nothing, then that do something small
+		plainCmd("SET", "fleet", "b", "NX", "POINT", "9", "9"),
+		plainCmd("SET", "fleet", "c", "XX", "POINT", "1", "1"),
+		plainCmd("SET", "fleet", "c", "NX", "POINT", "1", "1"),
+		plainCmd("SET", "fleet", "c", "XX", "EX", "5000", "POINT", "1", "1"),
+		plainCmd("SET", "fleet", "c", "XX", "POINT", "1", "1"),
+		plainCmd("SET", "fleet", "c", "EX", "7000", "XX", "POINT", "1", "1"),
+		// strings and a feature: only the deadline differs
+		plainCmd(S...),
+		plainCmd(with(S, 3, "EX", "5000")...),
+		plainCmd(with(S, 3, "EX", "8000")...),
+		plainCmd(S...),
+		plainCmd(with(G, 3, "EX", "5000")...),
+		plainCmd("JSET", "docs", "g", "properties.n", "1"),
+		plainCmd("JSET", "docs", "g", "properties.n", "2"),
+		plainCmd(G...),
+		plainCmd(with(G, 3, "EX", "5000")...),
+		// FSET: unchanged value, changed value, several fields of which one changes, XX on a missing id
+		plainCmd("FSET", "fleet", "a", "speed", "5"),
+		plainCmd("FSET", "fleet", "a", "speed", "6"),
+		plainCmd("FSET", "fleet", "a", "speed", "6", "meta", `{"j":1}`, "newf", "3"),
+		plainCmd("FSET", "fleet", "a", "speed", "6", "newf", "3"),
+		plainCmd("FSET", "fleet", "a", "newf", "0"),
+		plainCmd("FSET", "fleet", "nosuch", "XX", "speed", "1"),
+		evalCmd("FSET", "fleet", "a", "speed", "6"),
+		evalCmd("FSET", "fleet", "a", "speed", "7"),
+		// EXPIRE to the same value, to another, on an object without deadline; PERSIST twice
+		plainCmd("EXPIRE", "fleet", "a", "9000"),
+		plainCmd("EXPIRE", "fleet", "a", "9000"),
+		plainCmd("EXPIRE", "fleet", "a", "4000"),
+		plainCmd("EXPIRE", "fleet", "b", "5000"),
+		plainCmd("PERSIST", "fleet", "b"),
+		plainCmd("PERSIST", "fleet", "b"),
+		plainCmd("EXPIRE", "fleet", "nosuch", "5000"),
+		plainCmd("PERSIST", "fleet", "nosuch"),
+		evalCmd("EXPIRE", "fleet", "b", "6000"),
+		evalCmd("PERSIST", "fleet", "a"),
+		plainCmd("EXPIRE", "fleet", "a", "6000"),
+		// JSET / JDEL with the same value / a missing path
+		plainCmd("JSET", "docs", "d1", "a.b", "1"),
+		plainCmd("JSET", "docs", "d1", "a.b", "1"),
+		plainCmd("JSET", "docs", "d1", "n", "5"),
+		plainCmd("JDEL", "docs", "d1", "a.b"),
+		plainCmd("JDEL", "docs", "d1", "a.b"),
+		plainCmd("EXPIRE", "docs", "d1", "5000"),
+		plainCmd("JSET", "docs", "d1", "n", "5"),
+		plainCmd("JSET", "docs", "d1", "n", "6"),
+		// deletions that hit nothing
+		plainCmd("DEL", "fleet", "nosuch"),
+		plainCmd("PDEL", "fleet", "zz*"),
+		plainCmd("DROP", "nokey"),
+		plainCmd("DELCHAN", "nochan"),
+		plainCmd("PDELHOOK", "none*"),
+		// RENAME onto itself, RENAMENX onto an existing key, a real rename and back
+		plainCmd("RENAME", "fleet", "fleet"),
+		plainCmd("RENAMENX", "fleet", "docs"),
+		plainCmd("RENAMENX", "fleet", "fleet"),
+		plainCmd("RENAMENX", "fleet", "zoo"),
+		plainCmd("RENAME", "zoo", "fleet"),
+		// channels and hooks: identical definition with EX added / changed / removed, META changed
+		plainCmd(CH...),
+		plainCmd(CH...),
+		plainCmd(with(CH, 2, "EX", "5000")...),
+		plainCmd(with(CH, 2, "EX", "8000")...),
+		plainCmd(with(CH, 2, "EX", "8000")...),
+		plainCmd(CH...),
+		plainCmd(with(CH, 2, "META", "m1", "v1")...),
+		plainCmd(with(CH, 2, "META", "m1", "v2")...),
+		plainCmd(with(CP, 2, "EX", "5000")...),
+		plainCmd(CP...),
+		plainCmd(with(CP, 2, "EX", "5000")...),
+		plainCmd(HK...),
+		plainCmd(with(HK, 3, "EX", "5000")...),
+		plainCmd(with(HK, 3, "EX", "9000")...),
+		plainCmd(HK...),
+		plainCmd(with(HK, 3, "EX", "5000")...),
+		// objects that end with / without deadline after several flips
+		plainCmd(with(A, 3, "EX", "5000")...),
+		plainCmd(B...),
+	}
+	return h
+}
+
+func runDirected(r *hx.Result, cfg hx.Config, how string) {
+	dir := filepath.Join(cfg.Work, "directed-"+how)
+	s, err := srv.Start(dir)
+	if err != nil {
+		panic(err)
+	}
+	defer func() { s.Kill() }()
+	c := s.MustDial()
+	hist := directedHistory()
+	var sent []string
+	var mustLog []dcmd
+	changed := 0
+	kinds := map[string]bool{}
+	prev := fineDump(c)
+	for _, d := range hist {
+		v, err := c.Do(d.wire...)
+		if err != nil {
+			r.Fail(hx.Failure{Kind: "oracle", Signature: "server-died", What: fmt.Sprintf("connection lost on %q: %v; log: %s", d.wire, err, s.LogTail(500)), Case: sent})
+			return
+		}
+		sent = append(sent, strings.Join(d.wire, " ")+"  -> "+v.String())
+		cur := fineDump(c)
+		if cur != prev {
+			changed++
+			kinds[d.log[0]] = true
+			// a handler error inside pcall comes back as a value, an error reply is still an
+			// acknowledgement of "nothing happened": either way a changed state must be in the log
+			mustLog = append(mustLog, d)
+		}
+		prev = cur
+	}
+	before := prev
+	c.Close()
+	if how == "kill" {
+		s.Kill()
+	} else {
+		s.Stop()
+	}
+	r.Count("directed/"+how, changed >= 10 && len(kinds) >= 5)
+	r.Dist("directed:" + how)
+	r.TracesImpl++
+	// AOF-level oracle: every acknowledged command that changed the visible state has its record,
+	// in order
+	recs, ok := parseAOF(filepath.Join(dir, "appendonly.aof"))
+	if !ok {
+		r.Fail(hx.Failure{Kind: "oracle", Signature: "aof-unparsable", What: fmt.Sprintf("appendonly.aof of the directed history does not parse as RESP arrays to its end (%d records read)", len(recs)), Case: sent})
+	} else {
+		at := 0
+		for _, d := range mustLog {
+			found := -1
+			for j := at; j < len(recs); j++ {
+				if sameRecord(recs[j], d.log) {
+					found = j
+					break
+				}
+			}
+			if found < 0 {
+				r.Fail(hx.Failure{Kind: "oracle", Signature: "acked-change-not-logged", What: fmt.Sprintf("%q was acknowledged and changed the visible state (dump before and after it differ) but the log has no record of it after the records of the earlier commands", strings.Join(d.wire, " ")),
+					Case: map[string]interface{}{"history": sent, "command": d.wire, "expected_record": d.log, "log_records": len(recs)}})
+				continue
+			}
+			at = found + 1
+		}
+	}
+	s2, err := srv.StartPort(dir, srv.FreePort())
+	if err != nil {
+		r.Fail(hx.Failure{Kind: "oracle", Signature: "restart-failed", What: "server did not restart after " + how + " (directed history): " + err.Error(), Case: sent})
+		return
+	}
+	s = s2
+	c2 := s2.MustDial()
+	after := fineDump(c2)
+	c2.Close()
+	r.Sample(4, map[string]interface{}{"mode": "directed/" + how, "commands": len(hist), "changed_state": changed, "log_records": len(recs), "first": sent[:4], "dump_lines": strings.Count(before, "\n")})
+	if after != before {
+		r.Fail(hx.Failure{Kind: "oracle", Signature: "restart-state-differs", What: "directed history: the visible state after restart (" + how + ") differs from the acknowledged state before it: " + firstDiff(before, after),
+			Case: map[string]interface{}{"history": sent, "before": before, "after": after}})
+	}
 }
